@@ -17,6 +17,10 @@ import (
 	"github.com/IrineSistiana/mosdns/v5/pkg/utils"
 	"github.com/IrineSistiana/mosdns/v5/plugin/executable/sequence"
 	_ "github.com/IrineSistiana/mosdns/v5/plugin/mark" // the real "mark" matcher / executable (quick setup type "mark")
+	_ "github.com/IrineSistiana/mosdns/v5/plugin/matcher/has_resp"
+	_ "github.com/IrineSistiana/mosdns/v5/plugin/matcher/qclass"
+	_ "github.com/IrineSistiana/mosdns/v5/plugin/matcher/qtype"
+	_ "github.com/IrineSistiana/mosdns/v5/plugin/matcher/rcode" // the real int matchers "rcode N..", "qtype N..", "qclass N.." and "has_resp"
 	"github.com/miekg/dns"
 	"go.uber.org/zap"
 	"gopkg.in/yaml.v3"
@@ -25,7 +29,15 @@ import (
 var traceKey = query_context.RegKey()
 
 // keys of the values stored / deleted by the sv / dv actions and read by the V matcher
-var stateKeys = [3]uint32{query_context.RegKey(), query_context.RegKey(), query_context.RegKey()}
+// (nStateKeys keys, all from RegKey as StoreValue demands: a query can carry many values)
+const nStateKeys = 40
+
+var stateKeys = func() (ks [nStateKeys]uint32) {
+	for i := range ks {
+		ks[i] = query_context.RegKey()
+	}
+	return
+}()
 
 // shared by all copies of one top-level execution
 type sharedExec struct {
@@ -191,6 +203,12 @@ func (m *hMatch) Match(_ context.Context, q *query_context.Context) (bool, error
 	case "Q": // the query message id is n
 		id := int(q.Q().Id)
 		return id == m.n, t.add("M " + m.label + "=" + strconv.Itoa(id))
+	case "Y": // the question's type is n
+		x := int(q.QQuestion().Qtype)
+		return x == m.n, t.add("M " + m.label + "=" + strconv.Itoa(x))
+	case "C": // the question's class is n
+		x := int(q.QQuestion().Qclass)
+		return x == m.n, t.add("M " + m.label + "=" + strconv.Itoa(x))
 	case "R": // a response is present and its rcode is n
 		r := q.R()
 		if r == nil {
@@ -257,6 +275,10 @@ func (a *hAct) Exec(_ context.Context, q *query_context.Context) error {
 		}
 	case "qi":
 		q.Q().Id = uint16(a.id)
+	case "qt":
+		q.Q().Question[0].Qtype = uint16(a.id)
+	case "qc":
+		q.Q().Question[0].Qclass = uint16(a.id)
 	case "rm": // modifies the response in place (as ttl / redirect style plugins do)
 		if r := q.R(); r != nil {
 			r.Rcode = a.id
